@@ -80,6 +80,9 @@ def decoded_tuple(c):
             c["purifier"], c["aux_heat"], c["indep_aux"], c["sleep"], c["fahrenheit"], c["humidity"], c["freeze"])
 
 
+VARIANTS = ["", "pending property + state report with every answer", "enums as plain ints",
+            "client queried the capabilities of a unit without optional features", "client queried the capabilities of a full-featured unit",
+            "flags set through the deprecated *_mode attribute names"]
 NAMES = ("power", "beep", "mode", "temp", "fan", "swing", "turbo", "follow_me", "eco", "purifier", "aux_heat(PTC bit)",
          "independent_aux(bit)", "sleep", "fahrenheit", "humidity", "freeze")
 
@@ -98,9 +101,18 @@ def execute(s, variant=0):
             req.send(p)
 
     from ..refdevice import RefAC
-    rig = Rig(2, ac=RefAC({"power": False, "mode": 3, "temp": 19.0, "fan": 77, "eco": True, "humidity": 61, "swing": 0x3}), script=script)
+    from .c11 import CAPS
+    caps = {3: "min", 4: "max"}.get(variant)
+    rig = Rig(2, ac=RefAC({"power": False, "mode": 3, "temp": 19.0, "fan": 77, "eco": True, "humidity": 61, "swing": 0x3},
+                          **({"cap_pages": CAPS[caps]} if caps else {})), script=script)
     ac = rig.client()
-    dz.apply_to_client(ac, s)
+    if caps:
+        # the client has queried the unit's capabilities: what the user then requests is still what is sent
+        out0 = rig.run(ac.get_capabilities())
+        if out0[0] != "ok":
+            rig.close()
+            return out0, None, None, None
+    dz.apply_to_client(ac, s, aliases=variant == 5)
     if variant == 1:
         ac.horizontal_swing_angle = AC.SwingAngle.POS_3
         ac.ieco = True
@@ -151,12 +163,12 @@ def run_shard(shard, tier) -> Stats:
     det = Determinism(first=3, every=499)
     table = {}
     for ci, s in enumerate(cases):
-        for variant in ((0, 1, 2) if ci % 4 == 0 else (0,)):
+        for variant in ((0, 1, 2, 3, 4, 5) if ci % 4 == 0 else (0,)):
             res = execute(s, variant)
             if det.due():
                 r2 = execute(s, variant)
                 det.check((str(res[0]), res[2]), (str(r2[0]), r2[2]), s)
-            case = s if not variant else {**s, "variant": ["", "pending property + state report with every answer", "enums as plain ints"][variant]}
+            case = s if not variant else {**s, "variant": VARIANTS[variant]}
             prob = judge(st, case, *res, table if not variant else {})
             st.ev((tuple(sorted(s.items())), variant), "match" if not prob else "differ", True,
                   sample=None if len(st.samples) >= 2 else {"requested": s, "body": res[2].hex() if res[2] else None})
@@ -169,7 +181,7 @@ def run_shard(shard, tier) -> Stats:
         try:
             for i, s_ in enumerate(seq):
                 ac = a if i % 3 else b
-                dz.apply_to_client(ac, s_)
+                dz.apply_to_client(ac, s_, aliases=(lo // 25) % 2 == 1)
                 n0 = len(rig.dev.ac.controls)
                 out = rig.run(ac.apply())
                 ctl = rig.dev.ac.controls[-1] if len(rig.dev.ac.controls) > n0 else None
@@ -191,7 +203,7 @@ def replay(case):
     if str(case.get("variant", "")).startswith("same client"):
         return {"note": "sequence case: re-run ./check C10 to reproduce; the vector alone on a fresh client:",
                 "fresh": replay({k: x for k, x in case.items() if k != "variant"})}
-    v = ["", "pending property + state report with every answer", "enums as plain ints"].index(case.get("variant", ""))
+    v = VARIANTS.index(case.get("variant", ""))
     res = execute({k: x for k, x in case.items() if k != "variant"}, v)
     prob = judge(st, case, *res, {})
     return {"problem": prob, "body": res[2].hex() if res[2] else None}
